@@ -22,6 +22,7 @@ fi
 if [ -f "$D/demo_test.go" ]; then
   # an in-package Go test (package repl, compile, ...): passes without the change, fails with it
   PKG=$(grep -m1 '^package ' "$D/demo_test.go" | awk '{print $2}')
+  if [ "$PKG" = "main" ]; then PKG=.; fi
   cp "$D/demo_test.go" $S/$PKG/zz_demo_test.go
   (cd $S && go test -count=1 -run TestDemo ./$PKG/ >/tmp/seed_mut.out 2>&1; echo "demo test with change: exit=$? $(grep -m1 -- '--- FAIL\|^ok\|FAIL' /tmp/seed_mut.out | cut -c1-100)")
   (cd $S && patch -R -p1 -s < "$D/patch.diff" && go test -count=1 -run TestDemo ./$PKG/ >/tmp/seed_base.out 2>&1; echo "demo test without change: exit=$? $(grep -m1 -- '--- FAIL\|^ok\|FAIL' /tmp/seed_base.out | cut -c1-100)"; patch -p1 -s < "$D/patch.diff")
